@@ -73,6 +73,29 @@ func (fr *frame) doCall(c *ssa.CallCommon, args []SV, cur *State, instr *ssa.Cal
 			return fr.opaque(key, c, args, cur, rtyp, false)
 		}
 	}
+	// devirtualise through the synthetic pointer-receiver wrapper of a value-receiver method: the receiver was
+	// boxed from *T in this function and T declares the method - the wrapper loads *p and calls T's method
+	if c.IsInvoke() && len(args) > 0 && args[0].dyn != nil && args[0].dyn.typ != nil {
+		if pt, ok := args[0].dyn.typ.Underlying().(*types.Pointer); ok {
+			if m := vc.eng.prog.LookupMethod(pt.Elem(), c.Method.Pkg(), c.Method.Name()); m != nil && m.Synthetic == "" {
+				fr.safe("nilrecv", not(eq(app("i_type", args[0].t), "0")))
+				p := *args[0].dyn
+				fr.nonNil(p)
+				rv := SV{t: vc.nameTerm("ld", vc.loadLoc(cur, vc.locOf(p)), vc.sortOf(pt.Elem())), typ: pt.Elem()}
+				callee = m
+				key = funcKey(m)
+				args = append([]SV{rv}, args[1:]...)
+				if con := vc.contractFor(key); con != nil {
+					return fr.applyContract(con, key, args, cur, rtyp)
+				}
+				inRepo := m.Pkg != nil && strings.HasPrefix(m.Pkg.Pkg.Path(), repoMod)
+				if inRepo && len(m.Blocks) > 0 && !hasLoops(m) && fr.depth < maxInlineDepth && !vc.onStack(m) {
+					return fr.inline(m, args, nil, cur, rtyp)
+				}
+				return fr.opaque(key, c, args, cur, rtyp, false)
+			}
+		}
+	}
 	// a closure literal called directly (go/defer of func() {...}): inline with its captured variables
 	if mc, ok := c.Value.(*ssa.MakeClosure); ok && !c.IsInvoke() {
 		fv := fr.val(mc)
